@@ -295,6 +295,40 @@ theorem cooperative_suffix_exists (s0 : Stream) (hf : Fair s0) (keep : Nat → B
   obtain ⟨ps, p1, p2⟩ := exists_drain s2.snd.mu (Nat.le_refl _) (reach_run hf.reach _)
   exact ⟨ps, p1, pickSeq_bound p1, p2⟩
 
+/-- LIVENESS, all hypotheses but the window discharged: after EVERY no-abort history with an honest network, if the
+stream fits the sender's window, then for every choice of which frames in flight are lost there is a finite continuation
+(the cooperative suffix; `shutdown`, picks, deliveries, acknowledgements, loss declarations and reads only) after
+which the reader has read exactly what was written, has seen end-of-stream, and the sender is in `DataRcvd`. -/
+theorem completes_after_every_history (sw rw : Nat) (h : sw ≤ rw) (l : List HOp)
+    (hwin : (after sw rw (hops l)).snd.written.length ≤ (after sw rw (hops l)).snd.maxData) (keep : Nat → Bool) :
+    ∃ ops : List Op, (∀ op ∈ ops, op.coop = true) ∧
+      ((after sw rw (hops l)).run ops).eof = true ∧
+      ((after sw rw (hops l)).run ops).out = (after sw rw (hops l)).snd.written ∧
+      ((after sw rw (hops l)).run ops).snd.st = .dataRcvd ∧
+      ((after sw rw (hops l)).run ops).snd.pollShutdown.2 = "ready" ∧
+      ((after sw rw (hops l)).run ops).snd.pollFlush = "ready" := by
+  have hf := fair_history sw rw h l
+  obtain ⟨ps, p1, _, p3⟩ := cooperative_suffix_exists _ hf keep
+  have hc := eventually_complete _ hf hwin keep ps ((after sw rw (hops l)).snd.written.length + 1) (Nat.lt_succ_self _) p1 p3
+  obtain ⟨c1, c2, _, c4, c5, c6, _⟩ := hc
+  refine ⟨(.shutdown :: settleOps keep (List.range (after sw rw (hops l)).emitted.length)) ++ pickOps ps ++
+    (settleOps (fun _ => true) (List.range' (after sw rw (hops l)).emitted.length
+      ((((after sw rw (hops l)).run (.shutdown :: settleOps keep (List.range (after sw rw (hops l)).emitted.length))).run
+        (pickOps ps)).emitted.length - (after sw rw (hops l)).emitted.length)) ++
+     [.read ((after sw rw (hops l)).snd.written.length + 1), .read ((after sw rw (hops l)).snd.written.length + 1)]), ?_, ?_⟩
+  · intro op hm
+    rcases List.mem_append.mp hm with e | e
+    · rcases List.mem_append.mp e with e | e
+      · rcases List.mem_cons.mp e with e | e
+        · subst e; rfl
+        · exact settle_coop _ _ op e
+      · exact pickOps_coop ps op e
+    · rcases List.mem_append.mp e with e | e
+      · exact settle_coop _ _ op e
+      · simp at e; subst e; rfl
+  · simp only [run_append] at c1 c2 c4 c5 c6 ⊢
+    exact ⟨c1, c2, c4, c5, c6⟩
+
 /-- the history of seeded change c01-1: the tail is sent without FIN, spuriously declared lost, the application
 shuts down, the retransmission carries data + FIN, the original is delivered and acknowledged late -/
 def exLate : List HOp :=
